@@ -221,7 +221,7 @@ Definition write_block (o : wopts) (in_list : bool) (b : wblock) : string * bool
       let t := chars (para_text o rs) in
       (end_list in_list ++
        (if all_space t then ""
-        else sconcat (map (fun l => "> " ++ str (escape_block_start (trim_with is_blank l)) ++ "
+        else sconcat (map (fun l => "> " ++ str (escape_block_start (trim_with is_space l)) ++ "
 ") (split_lines t [])) ++ "
 "), false)%string
   | WCode rs =>
@@ -234,13 +234,13 @@ Definition write_block (o : wopts) (in_list : bool) (b : wblock) : string * bool
   | WItem rs =>
       let t := chars (para_text o rs) in
       if all_space t then ("", in_list)
-      else ((o_bullet o ++ " " ++ str (escape_block_start (trim_with is_blank t)) ++ "
+      else ((o_bullet o ++ " " ++ str (escape_block_start (trim_with is_space t)) ++ "
 ")%string, true)
   | WPara rs =>
       let t := chars (para_text o rs) in
       (end_list in_list ++
        (if all_space t then ""
-        else str (wrap_text o (escape_block_start (trim_with is_blank t))) ++ "
+        else str (wrap_text o (escape_block_start (trim_with is_space t))) ++ "
 
 "), false)%string
   | WTable rows => ((end_list in_list ++ write_table o rows)%string, false)
